@@ -1,7 +1,7 @@
 (** C13 - Signature proofs merge as verified set union and round-trip.
     Only statements closed by [exact] plus [Print Assumptions].  Simple scheme
     (gcrypto/simplecommonmessagesignatureproof.go); see design/C13.md for what each means. *)
-From Coq Require Import List NArith ZArith Permutation.
+From Coq Require Import List NArith ZArith Bool Permutation.
 From GV Require Import Base.Ints Gen.KeyID Model.SimpleProofBase Model.SimpleProof Monitors.C13m
   Proofs.SimpleProof Proofs.SimpleMerge Proofs.SimpleInv Proofs.SimpleRoundtrip.
 Import ListNotations.
